@@ -7,6 +7,7 @@ package dicescript
 import (
 	"bytes"
 	"encoding/json"
+	"errors"
 	"sync"
 	"sync/atomic"
 	"unsafe"
@@ -487,6 +488,13 @@ func (m *ValueMap) UnmarshalJSON(input []byte) error {
 	var dict map[string]*VMValue
 	if err := json.Unmarshal(input, &dict); err != nil {
 		return err
+	}
+
+	for k, v := range dict {
+		if v == nil {
+			// null 会变成空指针，之后读取这个变量的任何操作都会崩溃
+			return errors.New("值错误: 变量 " + k + " 的值不能为null")
+		}
 	}
 
 	m.Clear()
